@@ -28,7 +28,10 @@ GARBAGE = ["garbage", "", " ", "  ", "\t", "= =", "0 = ", "  0 = Q 1 2", "[Foo]"
            "  0 = B 120000", "  0 = TS 4", "  0 = TS 4 2", "  0 = A 1000", "  0 = N 0 0", "  0 = S 2 10", "  0 = E solo", "  0 = E \"section a b\"",
            "  0 = E \"lyric a b\"", "  0 = E \"two words\"", "  0 = E \"a\"b\"", "  0 = B", "  0 = B x", "  0 = B -1", "  0 = B 1.5", "  0 = TS",
            "  0 = TS 4 2 1", "  B 120000", "  0 = A", "  0 = E unquoted", "  0 = E", "  Resolution = 192", "  Name = \"x\"", "  0 = H 1 2",
-           "  10 = N 5", "  10 = S 2", "0", "N 0 0", "  0 = TS x", "  0 = A -5", "  0 == B 5"]
+           "  10 = N 5", "  10 = S 2", "0", "N 0 0", "  0 = TS x", "  0 = A -5", "  0 == B 5",
+           "100%", "  0 = N 0 0 %s", "%d garbage %(x)s", "  5 = E 100%done now", "%", "%%", "  0 = Q %s %s",
+           "  0 = N 34 0", "  0 = N 67 0", "  0 = N 45 1", "  0 = N 01 0", "  0 = N 12 96", "  0 = N 0123 0", "  0 = N 07 0", "  0 = N  96", "  0 = S 02 5",
+           "  0 = S 12 5", "  0 = S 22 5", "  0 = S  5", "  0 = TS  4", "  0 = B  5"]
 
 
 def required(tier):
@@ -85,6 +88,11 @@ def check_dispatch(rec, log, logs, case) -> bool:
     """conservation / exactly-once over the dispatch records of one parse"""
     ok = True
     track_warn = [m for (lg, lvl, m) in logs if lg == "chartparse.track" and lvl in ("WARNING", "ERROR", "CRITICAL")]
+    broken = [m for m in track_warn if m.startswith("<unformattable log record")]
+    if broken:
+        rec.violation("warnings", f"a report about an unparsable line cannot be rendered ({broken[0]}): with the standard logging handlers that "
+                      "line is never reported", case, "unparsable-line-report-unformattable")
+        return False
     total_unclaimed = 0
     for r in log:
         if r["probe"] != "dispatch":
@@ -286,7 +294,7 @@ def run_shard(shard, rec, tier, seed):
     for i in range(shard["count"]):
         rng = harness.rng_for(seed, ID, shard["name"], i)
         case = gen.gen_chart(rng, "hostile" if i % 2 else "realistic", n_tracks=rng.choice([1, 2, 3]), n_groups=rng.choice([2, 8, 30]),
-                             n_globals=rng.choice([2, 10]), n_tempos=rng.choice([1, 3, 8]), pad=i % 4 == 0)
+                             n_globals=rng.choice([2, 10, 80]), n_tempos=rng.choice([1, 3, 8]), pad=i % 4 == 0)
         run_case(rec, rng, case, i)
         if rec.full:
             break
